@@ -77,8 +77,8 @@ if not ra.ok:
 c.log('TLC SegmentRef (atomic level): %d distinct states, invariants hold (%.0fs)' % (ra.distinct, ra.wall))
 
 # ---- 3. code -> spec under real concurrency: holders vs housekeeping on one TSDB, trace validated by SegHoldTrace.tla ----
-HCFG = 'SPECIFICATION TraceSpec\nCONSTANTS\n  Clients = {"q"}\n  Segs = {"s"}\nINVARIANTS\n  HeldIsOpen\nPOSTCONDITION TraceAccepted\n'
-hd = tlc.run('SegHold.tla', 'h.cfg', tag='c14h', files={'h.cfg': 'SPECIFICATION HSpec\nCONSTANTS\n  Clients = {"q1", "q2"}\n  Segs = {"s1", "s2"}\nINVARIANTS\n  HeldIsOpen\n'}, timeout=600)
+HCFG = 'SPECIFICATION TraceSpec\nCONSTANTS\n  Clients = {"q"}\n  Segs = {"s"}\nINVARIANTS\n  HeldIsOpen\n  CopyUndisturbed\nPOSTCONDITION TraceAccepted\n'
+hd = tlc.run('SegHold.tla', 'h.cfg', tag='c14h', files={'h.cfg': 'SPECIFICATION HSpec\nCONSTANTS\n  Clients = {"q1", "q2"}\n  Segs = {"s1", "s2"}\nINVARIANTS\n  HeldIsOpen\n  CopyUndisturbed\n'}, timeout=600)
 if not hd.ok:
     c.inconclusive('TLC on SegHold.tla: %s %s' % (hd.violated, hd.error))
 
@@ -100,7 +100,7 @@ def trace_verdict(lines):
         c.inconclusive('trace validation did not run: %s\n%s' % (t.error, t.output[-1200:]))
     k = max(t.depth - 1, 0)
     ev = json.loads(lines[k]) if k < len(lines) else {}
-    return ('segment-%s-while-held' % {'SegClosed': 'closed', 'SegDeleted': 'deleted', 'HoldBegin': 'handed-out-after-delete'}.get(ev.get('event'), 'trace-rejected'),
+    return ('segment-%s-while-held' % {'SegClosed': 'closed', 'SegDeleted': 'deleted', 'HoldBegin': 'handed-out-after-delete-or-during-copy', 'SnapClosedBegin': 'copied-while-held'}.get(ev.get('event'), 'trace-rejected'),
             'event %d of %d rejected by SegHoldTrace.tla: %s' % (k + 1, len(lines), lines[k] if k < len(lines) else 'end'), lines[: k + 1])
 
 
